@@ -679,8 +679,9 @@ def rule_RC(ctx, tier):
             rr.ok("extended appointment = (request appointment, authenticated id, request signature, current height)")
         else:
             rr.fail("extended-appointment-fields", "ExtendedAppointment::new(%s)" % ", ".join(og.show(x)[:50] for x in e_args), where=a.line_of(ea[0]))
-        from .rulekit import ctors_keep_args
+        from .rulekit import ctors_keep_args, accessors_return_field
         ctors_keep_args(ctx, rr, "tower")
+        accessors_return_field(ctx, rr, ("teos_common::receipts::AppointmentReceipt", "teos_common::receipts::RegistrationReceipt"))
         # ... and the constructor keeps what it is given: each field of the record is the parameter of that name, untouched (the
         # record is what gets stored, what the receipt is built from and what is returned on get_appointment)
         cn = P.bodies.get("teos::extended_appointment::ExtendedAppointment::new")
